@@ -11,6 +11,7 @@ RULE = ("generate_graphs on random node sets (2-5 nodes, static / mixture / trai
         "node/its edges removed and on AsyncGraph recordings extended by a new node: existing arrays bit-identical, exactly the missing keys "
         "added, new parts obey the rules; one evaluation = one episode (or one augmentation); non-trivial = episode with >=1 connection not "
         "consumed 1:1 or >=1 exact tie or >=1 overrun; distinct by spec digest x episode")
+RULE += ' Built later: un-batched augmentation equals the batched one; a new node that also sends to a recorded (padded) receiver; nodes with only one or two steps inside the horizon.'
 MIN_NONTRIVIAL = {"quick": 20, "thorough": 300}
 DECIDING = ["vertices_checked", "edges_checked"]
 ASSUMPTIONS = ["consumption follows the FIFO arrival a_j = max_{i<=j} ts_recv_i (the documented monotone seq_in contract); overtaken messages are counted",
